@@ -175,6 +175,31 @@ fn main() {
         let out = match p[0] {
             "beacon" => beacon(p[1], p[2].parse().unwrap(), p[3].parse().unwrap(), p[4].parse().unwrap()),
             "entity" => entity(&p),
+            // leaf_eq item|node block <hash> <n> <slot> <hash> <n> <slot>      |  leaf_eq item|node tx <txhash> <bhash> <n> <slot> (x2)
+            "leaf_eq" => {
+                use mithril_common::crypto_helper::MKTreeNode;
+                use mithril_common::entities::{CardanoBlock, CardanoBlockTransactionMkTreeNode as Node, CardanoTransaction};
+                let h = |s: &str| if s == "-" { String::new() } else { s.to_string() };
+                let n = |s: &str| s.parse::<u64>().unwrap();
+                let mk = |q: &[&str]| -> MKTreeNode {
+                    match (p[1], p[2]) {
+                        ("item", "block") => {
+                            let node: Node = CardanoBlock::new(h(q[0]), BlockNumber(n(q[1])), SlotNumber(n(q[2]))).into();
+                            node.into()
+                        }
+                        ("node", "block") => Node::Block { block_hash: h(q[0]), block_number: BlockNumber(n(q[1])), slot_number: SlotNumber(n(q[2])) }.into(),
+                        ("item", _) => {
+                            let node: Node = CardanoTransaction::new(h(q[0]), BlockNumber(n(q[2])), SlotNumber(n(q[3])), h(q[1])).into();
+                            node.into()
+                        }
+                        _ => Node::Transaction { transaction_hash: h(q[0]), block_hash: h(q[1]), block_number: BlockNumber(n(q[2])), slot_number: SlotNumber(n(q[3])) }.into(),
+                    }
+                };
+                let k = if p[2] == "block" { 3 } else { 4 };
+                let a = mk(&p[3..3 + k]);
+                let b = mk(&p[3 + k..3 + 2 * k]);
+                if a == b { "equal".to_string() } else { "different".to_string() }
+            }
             "stake_root" => {
                 use mithril_common::signable_builder::CardanoStakeDistributionSignableBuilder as B;
                 let d1 = std::collections::BTreeMap::from([(p[1].to_string(), p[2].parse::<u64>().unwrap())]);
